@@ -33,6 +33,7 @@ RULE = (
     'this file; a fresh configuration with the same final arguments is == and builds the same. '
     'Non-trivial: history contains an *args shift and an edit made while suspended.'
 )
+RULE += (' ' + 'Rounds 3-5: the configuration a copy_with was taken from stays unchanged; tag operations by index; rejected operations (update_callable to an incompatible callable) change nothing; threaded ops also while the main thread is suspended; edits inside a recursive @suspend_tracking() function; tracking flag checked after every operation.')
 ASSUMPTIONS = [
     'the argument state after each edit is judged by C03; C16 compares the log with the actual stored state',
     'unchanged-but-rewritten keys may log 0 or 1 entry',
